@@ -36,7 +36,7 @@ func (e *Exec) weight(st *State, v Value, depth int) int {
 		return 0
 	}
 	switch x := v.(type) {
-	case StrV:
+	case *StrV:
 		return len(x.b)
 	case *StructV:
 		n := 0
@@ -212,6 +212,48 @@ func (e *Exec) mutation(st *State) bool {
 	return true
 }
 
+// ghostResolve finds the file below dir that a (possibly symbolic) relative
+// name denotes: concrete names literally; symbolic bytes by deciding, file by
+// file, whether the name equals that file's relative path (forking).
+func (e *Exec) ghostResolve(st *State, dir string, nv Value) (string, bool) {
+	sv, ok := nv.(*StrV)
+	if !ok {
+		panic(e.abort("ghost fs: file name is %T", nv))
+	}
+	concrete := true
+	for _, b := range sv.b {
+		if !b.IsConst() {
+			concrete = false
+		}
+	}
+	g := st.fs()
+	if concrete {
+		n := e.cstr(nv)
+		if strings.HasPrefix(n, "/") {
+			return "", false
+		}
+		_, ok := g.files[dir+"/"+n]
+		return n, ok
+	}
+	for _, full := range ghostFileNames(g) {
+		if !strings.HasPrefix(full, dir+"/") {
+			continue
+		}
+		rel := full[len(dir)+1:]
+		if len(rel) != len(sv.b) {
+			continue
+		}
+		cond := e.c.True
+		for i := range sv.b {
+			cond = e.c.And(cond, e.c.Eq(sv.b[i], e.c.Const(8, uint64(rel[i]))))
+		}
+		if e.decide(st, cond) {
+			return rel, true
+		}
+	}
+	return "", false
+}
+
 func ghostNote(e *Exec) {
 	e.res.noteOnce("ghost file system: os.Stat/Open/OpenFile/CreateTemp/Remove/Rename/MkdirAll, File.Stat/Close/Name and json Encoder.Encode / Decoder.Decode are models (records + (size,mtime) version, mtime moves by 1 ns per modification); natively the real file system")
 }
@@ -305,6 +347,43 @@ func init() {
 		}
 		delete(g.files, from)
 		g.files[to] = f // atomic replacement; the file keeps its own mtime, as on a real system
+		return nilErr()
+	})
+	// ---- os.Root: operations confined to a directory ----
+	add("os.OpenRoot", func(e *Exec, st *State, fv FuncV, a []Value, cc *ssa.CallCommon) Value {
+		ghostNote(e)
+		rt := e.namedType("os", "Root")
+		obj := e.alloc(st, e.zero(rt))
+		st.fs().handles[obj.obj] = &ghostHandle{name: e.cstr(a[0])}
+		return TupleV{[]Value{obj, nilErr()}}
+	})
+	add("(*os.Root).Close", func(e *Exec, st *State, fv FuncV, a []Value, cc *ssa.CallCommon) Value { return nilErr() })
+	add("(*os.Root).Remove", func(e *Exec, st *State, fv FuncV, a []Value, cc *ssa.CallCommon) Value {
+		ghostNote(e)
+		h := e.ghostHandleOf(st, a[0])
+		rel, ok := e.ghostResolve(st, h.name, a[1])
+		if e.mutation(st) {
+			return crashedFrame{}
+		}
+		if !ok {
+			return e.errNotExist(st)
+		}
+		delete(st.fs().files, h.name+"/"+rel)
+		e.res.noteOnce("model of os.Root: a name is looked up literally below the root directory (names that are absolute, climb out with '..' or are not in canonical form match no file); the kernel-level confinement of os.Root itself is trusted")
+		return nilErr()
+	})
+	add("os.WriteFile", func(e *Exec, st *State, fv FuncV, a []Value, cc *ssa.CallCommon) Value {
+		ghostNote(e)
+		if e.mutation(st) {
+			return crashedFrame{}
+		}
+		g := st.fs()
+		nf := &ghostFile{}
+		if sl, ok := a[1].(SliceV); ok && sl.len.IsConst() {
+			nf.size = int(sl.len.val)
+		}
+		g.touch(nf)
+		g.files[e.cstr(a[0])] = nf
 		return nilErr()
 	})
 	add("(*os.File).Name", func(e *Exec, st *State, fv FuncV, a []Value, cc *ssa.CallCommon) Value {
